@@ -16,6 +16,8 @@ pub const E_CMAP: u8 = 7;
 pub const E_TEXTSTRING: u8 = 8;
 pub const E_QUERIES: u8 = 20;
 pub const E_PAGETREE: u8 = 21;
+/// raw file bytes: load_mem, then every read-only query on whatever was loaded
+pub const E_FILEQUERIES: u8 = 22;
 
 pub fn entry_name(e: u8) -> &'static str {
     match e {
@@ -29,12 +31,13 @@ pub fn entry_name(e: u8) -> &'static str {
         E_TEXTSTRING => "decode_text_string",
         E_QUERIES => "queries",
         E_PAGETREE => "page_tree",
+        E_FILEQUERIES => "file_queries",
         _ => "unknown",
     }
 }
 
 pub fn entry_by_name(n: &str) -> Option<u8> {
-    [E_LOAD, E_INCLOAD, E_CONTENT, E_FILTER, E_OBJSTM, E_XREF, E_CMAP, E_TEXTSTRING, E_QUERIES, E_PAGETREE].into_iter().find(|e| entry_name(*e) == n)
+    [E_LOAD, E_INCLOAD, E_CONTENT, E_FILTER, E_OBJSTM, E_XREF, E_CMAP, E_TEXTSTRING, E_QUERIES, E_PAGETREE, E_FILEQUERIES].into_iter().find(|e| entry_name(*e) == n)
 }
 
 #[derive(Clone, Debug, Serialize, Deserialize)]
@@ -290,6 +293,10 @@ pub fn dispatch(entry: u8, payload: &[u8]) -> String {
                 run_pagetree(&doc)
             }
         }
+        E_FILEQUERIES => match Document::load_mem(payload) {
+            Ok(doc) => run_queries(&doc),
+            Err(e) => format!("err:{}", crate::engine::truncate(&format!("{:?}", e), 60)),
+        },
         _ => "unknown-entry".into(),
     }
 }
